@@ -122,7 +122,23 @@ def time_axis(draw, n, steps=None, regular=None):
         d = draw(st.sampled_from(steps))
         ds = [d] * max(0, n - 1)
     else:
-        ds = draw(st.lists(st.sampled_from(steps), min_size=max(0, n - 1), max_size=max(0, n - 1)))
+        how = draw(st.sampled_from(["listed", "listed", "small", "balanced"]))
+        m = max(0, n - 1)
+        if how == "listed":
+            ds = draw(st.lists(st.sampled_from(steps), min_size=m, max_size=m))
+        elif how == "small":
+            lo, hi = min(steps), max(min(steps) * 4, min(steps) + 30)
+            ds = draw(st.lists(st.integers(lo, hi), min_size=m, max_size=m))
+        else:
+            # steps that average to the first step although they differ (a, a-d, a+d, ...): total span == (n-1) * first step
+            a = draw(st.sampled_from([s for s in steps if s >= 2] or steps))
+            ds = [a]
+            while len(ds) < m:
+                d = draw(st.integers(1, max(1, a - 1)))
+                ds += [a - d, a + d]
+            ds = ds[:m]
+            if m >= 2 and sum(ds) != a * m:
+                ds[-1] = a * m - sum(ds[:-1]) if a * m - sum(ds[:-1]) > 0 else ds[-1]
     t = [t0]
     for d in ds:
         t.append(t[-1] + d)
